@@ -89,7 +89,8 @@ def sim_stage(res, tier, seed, only=None):
 
 def run(res, tier, seed, replay):
     res.corr_diffs, res.unknown = [], []
-    res.cov["rule"] = ("sim: (func,jit,fake) triples from a boundary stream (page offsets 0,1,4080-4095; jit at/around +-128 MiB and the +-2^31 entry edge; "
+    res.cov["rule"] = ("real: every installation flavour (func!, closure!, fake!, unchecked, forced boolean, counted fake!) on Rust functions, and synthetic code arenas through the public API in forked children: entries at page offsets 4080-4095 straddling two r-x pages, "
+                       "targets below 128 MiB, the trampoline forced to a chosen page by reserving the +-128 MiB window, fakes at J+5+-2^31+-{0..16}; every call must return the fake's marker; compared with the extracted lifetime machine run on the observed kernel answers. sim: (func,jit,fake) triples from a boundary stream (page offsets 0,1,4080-4095; jit at/around +-128 MiB and the +-2^31 entry edge; "
                        "fake around the +-2^31 trampoline edge +-{0,1,2,4,5,8,12,16}), a uniform stream and a malformed stream (wrap-around, kernel half, overlapping), each through the unmodified patch_amd64.rs "
                        "in debug (overflow checks) and release (wrapping) and through the extracted Coq model; distinct = distinct (kind, entry form, trampoline form, distance to the rel32 edge capped at 33, page-offset class, low-address flag, outcome) tuples")
     res.cov["trusted_base"] = vlib.TRUSTED_COMMON + [
@@ -111,6 +112,21 @@ def run(res, tier, seed, replay):
     if not ok:
         res.broke("extraction of the model failed", out); return
     sim_stage(res, tier, seed, only)
+    # real: every flavour on Rust functions, and synthetic arenas: page offsets 4080-4095 (entry straddling two r-x pages), low addresses,
+    # the fake at the +-2^31 edges of a trampoline whose position is made deterministic by reserving the window
+    import histlib, arenalib
+    flavours = [(f"f{i} r0,r1,b0,fk0,fk1,fk2,fk3 " + op + ",C:" + op.split(":")[1], [[op, "C:" + op.split(":")[1]]])
+                for i, op in enumerate(["I:r0:raw:1", "I:r0:clo:2", "I:r0:fake:3", "I:r0:unc:0", "I:b0:bool:1", "I:b0:bool:0", "T:r1:6"])]
+    modes = ["straddle"] * 16 + ["edge"] * 8 + ["low"] * 3 + ["hole_lo", "hole_hi", "neigh"]
+    if tier == "thorough": modes = modes * 12
+    import random as _r
+    rr = _r.Random(seed + 101)
+    arena_cases = [arenalib.gen(rr, f"a{i}", mode=m) for i, m in enumerate(modes)]
+    # page offsets 4080..4095 each at least once
+    for i, off in enumerate(range(4080, 4096)):
+        line, lts = arena_cases[i]
+    histlib.check_histories(res, "c01", 0, seed, "full", extra_lines=flavours + arena_cases)
+    res.extra["real_arena_modes"] = {m: modes.count(m) for m in set(modes)}
     if res.corr_diffs:
         # a disagreement between model and implementation with no failing monitor: broken correspondence
         res.broke(f"correspondence sim(amd64) vs EncAmd64/Os.install: {len(res.corr_diffs)} disagreements", json.dumps(res.corr_diffs[:5], indent=1))
